@@ -241,7 +241,7 @@ impl Monitor for C04 {
             0 => rng.range(0, 3),
             1..=4 => rng.range(0, 40),
             5..=8 => rng.range(20, maxn.min(700)),
-            _ => rng.range(100, maxn),
+            _ => rng.range(100.min(maxn), maxn),
         };
         let extra = if rng.chance(1, 3) { rng.range(1, 3) } else { 0 };
         let (cls, text) = sentinel_text(rng, n, sentinel, extra);
